@@ -64,6 +64,10 @@ type runResult struct {
 	Shape     [][]passInfo // per round
 	Trace     []string
 	Panic     string
+	// Unwatched: at the end of the run, managed objects whose controller (ObjectSet,
+	// ObjectSetPhase, ObjectTemplate) is not registered in the dynamic cache as a watcher of the
+	// object's kind: a later third-party edit of such an object would wake nobody up
+	Unwatched []string
 }
 
 // scenario
@@ -239,6 +243,7 @@ func execute(sc scenario, in *injection, keepTrace bool) runResult {
 		}
 	}
 	res.Proj = project(w, sc.LooseHistory)
+	res.Unwatched = unwatched(w)
 	// at quiescence a further round must not send any state-changing request
 	if res.Quiescent {
 		for _, ps := range osw.RoundPasses(w) {
@@ -320,6 +325,48 @@ func project(w *world.World, loose bool) string {
 		}
 	}
 	return rename(sb.String())
+}
+
+// unwatched lists the live managed objects whose controller is a live package-operator object
+// that the dynamic cache does not list as a watcher of the object's kind.
+func unwatched(w *world.World) []string {
+	var out []string
+	for _, k := range w.S.SortedKeys() {
+		if k.Group != world.TestGroup {
+			continue
+		}
+		c := w.S.Objs[k].Content
+		if kmodel.Terminating(c) {
+			continue
+		}
+		for _, o := range world.Owners(c, false) {
+			if !o.Controller || o.Group != "package-operator.run" {
+				continue
+			}
+			ok := w.S.Objs[world.PKOKey(o.Kind, k.Namespace, o.Name)]
+			if ok == nil || kmodel.Terminating(ok.Content) || string(kmodel.UID(ok.Content)) != string(o.UID) {
+				continue
+			}
+			if o.Kind == "ObjectSet" && osw.Lifecycle(ok.Content) != "Active" && osw.Lifecycle(ok.Content) != "" {
+				continue // paused / archived owners are not expected to repair anything
+			}
+			found := false
+			for gvk, l := range w.Refs {
+				if gvk.Kind != k.Kind || gvk.Group != k.Group {
+					continue
+				}
+				for _, r := range l {
+					if string(r.UID) == string(o.UID) {
+						found = true
+					}
+				}
+			}
+			if !found {
+				out = append(out, fmt.Sprintf("%s (controller %s/%s)", k, o.Kind, o.Name))
+			}
+		}
+	}
+	return out
 }
 
 func sortedMap(m map[string]string) []string {
@@ -504,6 +551,9 @@ func identityOf(sc scenario, in *injection, msg string) string {
 		what = in.Fault.String()
 	}
 	kind := "different-end-state"
+	if strings.Contains(msg, "nobody watches") {
+		kind = "unwatched-managed-object"
+	}
 	if strings.Contains(msg, "did not become quiescent") {
 		kind = "no-quiescence"
 	} else if strings.Contains(msg, "panic") {
@@ -520,6 +570,9 @@ func run(o checks.Opts) *report.Report {
 	n := 0
 	for _, sc := range scs {
 		ref := execute(sc, nil, false)
+		if ref.Quiescent && len(ref.Unwatched) > 0 {
+			rep.AddViolation(report.Violation{Identity: "reference-run-unwatched " + sc.Name, Message: fmt.Sprintf("after the undisturbed run of %s nobody watches %v", sc.Name, ref.Unwatched)})
+		}
 		if !ref.Quiescent {
 			rep.AddViolation(report.Violation{Identity: "reference-run-not-quiescent " + sc.Name, Message: "the undisturbed run of " + sc.Name + " did not become quiescent within the horizon:\n" + ref.Proj})
 			continue
@@ -594,6 +647,8 @@ func run(o checks.Opts) *report.Report {
 				msg = fmt.Sprintf("after %s the system did not become quiescent within %d rounds (controllers keep changing state)\n%s", in, horizon, res.Proj)
 			case res.Proj != ref.Proj:
 				msg = fmt.Sprintf("after %s the end state differs from the undisturbed run:\n--- undisturbed\n%s--- disturbed\n%s", in, ref.Proj, res.Proj)
+			case len(res.Unwatched) > 0:
+				msg = fmt.Sprintf("after %s the system is quiescent but nobody watches %v: a later third-party edit of these objects would never be repaired", in, res.Unwatched)
 			}
 			if msg != "" {
 				rep.AddViolation(report.Violation{Identity: identityOf(sc, in, msg), Message: msg + "\nscenario: " + sc.Name, Params: map[string]any{"scenario": sc.Name, "injection": in}})
@@ -622,6 +677,9 @@ func replay(v report.Violation) string {
 			}
 			if res.Proj != ref.Proj {
 				return "end state differs:\n--- undisturbed\n" + ref.Proj + "--- disturbed\n" + res.Proj
+			}
+			if len(res.Unwatched) > 0 {
+				return fmt.Sprintf("quiescent, but nobody watches %v", res.Unwatched)
 			}
 			return ""
 		}
